@@ -16,7 +16,7 @@ from harness.props.c09 import H, U, rand_rot
 ID = "C02"
 IMPORTS = "From Evo Require Import Num Linalg Lie Metrics.\n"
 COQ_TARGETS = ["theories/MetricsProofs.vo", "theories/RpeSelect.vo", "generated/StepsC02.vo", "theories/MetricsTie.vo", "generated/LieGen.vo", "generated/MetricsGen.vo"]
-TRUSTED = ["model Evo.Metrics (rpe) written by hand from RPE.process_data; tie = differential run in binary64",
+TRUSTED = ["model Evo.Metrics (rpe) written by hand from RPE.process_data; ties: (T) harness/pyast_metrics.py re-translates RPE.rpe_base and the per-relation reduction of RPE.process_data for the SE(3)-based relations from the current source on every run and Evo.MetricsTie proves them equal to the model's rpe_pair (the point-distance relations are array code and stay tied by (H) only); (H) differential run in binary64, with an independent numpy evaluation of the definition deciding whether a disagreement is a violation",
            "pair selection (id_pairs_from_delta) enters the model as a list computed by evo's own selector on the trajectory "
            "the statement names (estimate, or reference with pairs_from_reference); the selector itself is property C10",
            "scipy angle extraction as oracle (cos/sin comparison); processing components tied by C04/C05/C11/C14; "
@@ -390,4 +390,4 @@ LEVEL_TEXT = ("Coq theorems over R for the RPE model: refusal of unequal lengths
               "and stored trajectories) against the model; step order of rpe()/run() re-extracted each run.")
 LEVEL_NOTE = ("Trusted: Coq kernel/VM, Reals axioms + classic, hand model (tested correspondence), evo's pair selector as oracle here "
               "(property C10), scipy angle oracle, processing components (own properties); rounding measured, not proved.")
-TECHNIQUE = "Coq proof (SE(3) algebra, list induction) + correspondence by vm_compute + AST step-order obligation"
+TECHNIQUE = "Coq proof (SE(3) algebra, list induction) + Python-AST translator of the metric kernels with translated = model proved + correspondence by vm_compute + AST step-order obligation"
